@@ -70,7 +70,9 @@ func VerifC48WriteBlocking() {
 	w := &vWaiter{r: r, c: c, write: true, cur: pre}
 	verifOnWait(r, w.step)
 
+	verifWatch(r, &r.mutex, true)
 	n, blocked := r.Write(batch, true)
+	verifWatch(r, &r.mutex, false)
 
 	verifWaitDone()
 	post := vSnapshot(r, c)
@@ -97,7 +99,9 @@ func VerifC48ReadBlocking() {
 	w := &vWaiter{r: r, c: c, write: false, cur: pre}
 	verifOnWait(r, w.step)
 
+	verifWatch(r, &r.mutex, true)
 	n, blocked := r.Read(out, true)
+	verifWatch(r, &r.mutex, false)
 
 	verifWaitDone()
 	post := vSnapshot(r, c)
